@@ -1140,7 +1140,7 @@ pub fn gen(prop: &str, rng: &mut Rng, quick: bool, st: &mut Stats) -> Option<Vec
                 if quick && k == 0 {
                     continue;
                 }
-                let o = ForeignOpts { n: *n, depth: 0, icomp: 1 + (k % 4) as u8, permute: false, unordered: false, empty_meta: true, merge_runs: false, unknown_counts: false };
+                let o = ForeignOpts { n: *n, depth: 0, icomp: 1 + (k % 4) as u8, permute: false, unordered: false, empty_meta: true, merge_runs: false, unknown_counts: false, multi_frame: false };
                 let f = gen_foreign(rng, &o, st);
                 if f.header.entries as usize >= *n {
                     c.push(format!("chk_foreign {} {}", fam(k).1, hex_bytes(&f.bytes)));
@@ -1318,7 +1318,7 @@ pub fn gen(prop: &str, rng: &mut Rng, quick: bool, st: &mut Stats) -> Option<Vec
                 }
                 // non-deduplicated foreign source, rewritten
                 for k in 0..(if quick { 8 } else { 40 }) {
-                    let o = ForeignOpts { n: 30 + k, depth: (k % 3) as u32, icomp: 1 + (k % 4) as u8, permute: k % 2 == 0, unordered: true, empty_meta: false, merge_runs: k % 3 != 0, unknown_counts: k % 5 == 4 };
+                    let o = ForeignOpts { n: 30 + k, depth: (k % 3) as u32, icomp: 1 + (k % 4) as u8, permute: k % 2 == 0, unordered: true, empty_meta: false, merge_runs: k % 3 != 0, unknown_counts: k % 5 == 4, multi_frame: false };
                     let f = gen_foreign(rng, &o, st);
                     let mode = if k % 2 == 0 { "sync" } else { "async" };
                     let m = &mode[..1];
